@@ -16,6 +16,7 @@ CONSTANTS
   BugDoubleStore = FALSE
   BugNoCloseUnclean = FALSE
   FixStreamCtxStore = TRUE
+  BugKeepAbandoned = FALSE
   Emit = TRUE
   WarmChoices = {FALSE, TRUE}
 INVARIANTS EmitCase TypeOK StreamStoreExactlyOnce Exclusive UncleanClosedBeforeStore NoLeak StreamBookkeeping
